@@ -255,7 +255,14 @@ class one_dimensional_chain(lattice):
         return hash((self.n_sites, self.shape, self.sites, self.bonds))
 
     def tree_flatten(self):
-        return (), (self.n_sites, self.shape, self.sites, self.bonds, self.coord_num)
+        return (), (
+            self.n_sites,
+            self.shape,
+            self.sites,
+            self.bonds,
+            self.hop_signs,
+            self.coord_num,
+        )
 
     @classmethod
     def tree_unflatten(cls, aux_data, children):
@@ -524,6 +531,8 @@ class two_dimensional_grid(lattice):
             self.bond_shell_distances,
             self.sites,
             self.bonds,
+            self.n_sites,
+            self.hop_signs,
             self.coord_num,
         )
 
@@ -607,7 +616,9 @@ class triangular_grid(lattice):
             self.l_y,
             self.shape,
             self.sites,
+            self.n_sites,
             self.coord_num,
+            self.open_x,
         )
 
     @classmethod
@@ -750,6 +761,7 @@ class three_dimensional_grid(lattice):
             self.shell_distances,
             self.sites,
             self.bonds,
+            self.n_sites,
             self.coord_num,
         )
 
